@@ -281,11 +281,9 @@ func (packet *Packet) readPacket(connection net.Conn) ([]byte, error) {
 		return nil, err
 	}
 
+	// a packet without payload is valid: it ends a payload that is a multiple of 2^24-1 bytes long,
+	// and clients send it as an empty authentication response or as the end of a LOCAL INFILE upload
 	length := packet.GetPacketPayloadLength()
-	if length < 1 {
-		return nil, fmt.Errorf("invalid payload length %d", length)
-	}
-
 	data := make([]byte, length)
 	if _, err := io.ReadFull(connection, data); err != nil {
 		return nil, err
@@ -310,10 +308,14 @@ func (packet *Packet) Dump() []byte {
 // ReadPacket header and payload from connection or return error
 func (packet *Packet) ReadPacket(connection net.Conn) error {
 	data, err := packet.readPacket(connection)
-	if err == nil {
-		packet.data = data
+	if err != nil {
+		return err
 	}
-	return err
+	if len(data) == 0 {
+		return fmt.Errorf("invalid payload length %d", len(data))
+	}
+	packet.data = data
+	return nil
 }
 
 // IsOK return true if packet is OkPacket
@@ -390,6 +392,18 @@ func (packet *Packet) getClientCapabilities() (uint32, error) {
 		return 0, base_mysql.ErrMalformPacket
 	}
 	return binary.LittleEndian.Uint32(packet.data[:4]), nil
+}
+
+// ReadClientPacket reads a packet sent by the client, which may have an empty payload (authentication
+// response for an account without password, end of the data sent in answer to a LOCAL INFILE request)
+func ReadClientPacket(connection net.Conn) (*Packet, error) {
+	packet := NewPacket()
+	data, err := packet.readPacket(connection)
+	if err != nil {
+		return nil, err
+	}
+	packet.data = data
+	return packet, nil
 }
 
 // ReadPacket from connection and return Packet struct with data or error
